@@ -61,6 +61,7 @@ const (
 // deselect/select   the peer's Deselect.req / Select.req
 // inbound        a well-formed data primary from the peer
 // badptype       a frame with PType 1;   badbody: a data frame whose body is not SECS-II
+// knock          (passive) a third party connects to the port while the link is up and is refused
 // close          Close()
 
 type event string
@@ -75,16 +76,18 @@ func alphabet(cfg config, thin int) []event {
 	a := []event{"send.W", "send.noW", "send.async", "send.reply", "send.fwd",
 		"werrT.W", "werrT.async", "werrR.noW", "werrT.fwd", "werrR.reply",
 		"reply", "reject", "cancel", "advT3", "drop", "reconnect", "refuse",
-		"deselect", "select", "inbound", "badptype", "badbody", "close"}
+		"deselect", "select", "inbound", "badptype", "badbody", "knock", "close"}
 	drop := map[event]bool{}
 	if !cfg.Active {
 		drop["refuse"] = true
+	} else {
+		drop["knock"] = true
 	}
 	switch thin {
 	case 1: // quick: three write-error variants
 		drop["werrT.fwd"], drop["werrR.reply"] = true, true
 	case 2: // 12 symbols
-		for _, e := range []event{"send.noW", "send.reply", "send.fwd", "werrT.async", "werrR.noW", "werrT.fwd", "werrR.reply", "select", "badptype", "badbody", "refuse"} {
+		for _, e := range []event{"send.noW", "send.reply", "send.fwd", "werrT.async", "werrR.noW", "werrT.fwd", "werrR.reply", "select", "badptype", "badbody", "refuse", "knock"} {
 			drop[e] = true
 		}
 	case 3: // 8 symbols
@@ -96,7 +99,7 @@ func alphabet(cfg config, thin int) []event {
 			}
 		}
 	case 5: // quick depth 4: 14 symbols
-		for _, e := range []event{"send.reply", "send.fwd", "werrT.async", "werrT.fwd", "werrR.reply", "refuse", "select", "badptype", "badbody"} {
+		for _, e := range []event{"send.reply", "send.fwd", "werrT.async", "werrT.fwd", "werrR.reply", "refuse", "select", "badptype", "badbody", "knock"} {
 			drop[e] = true
 		}
 	case 4: // 8 other symbols
@@ -607,6 +610,16 @@ func run(t *testing.T, cfg config, hist []event) (obs []stepObs, fail *failure, 
 			case ev == "badptype":
 				peerSys++
 				sendFrame(peer.Frame{Session: libSession, B2: 0x81, B3: 1, PType: 1, SType: 0, Sys: peerSys})
+			case ev == "knock":
+				// a third party dials the passive library's port while the session's link is up: it is
+				// refused, and nothing about the session or its counters changes
+				if r.connected && peerUsable {
+					if c2 := w.Net.Connect(); c2 != nil {
+						w.Settle()
+						_ = c2.Close()
+						w.Settle()
+					}
+				}
 			case ev == "close":
 				for _, k := range append([]*call(nil), r.open...) {
 					endOpen(k, "closed")
@@ -749,7 +762,7 @@ func plans(thorough bool) []plan {
 func TestCheck(t *testing.T) {
 	vfw.Main(t, "C20", func(c *vfw.Ctx) {
 		c.Level("model_checking")
-		c.Rule("E2 tree search: real hsmsss connection (passive/active x host/equipment; T3 3 s, backoff 100 ms flat, write timeout 500 ms) brought to Selected, then EVERY history of length <= 3 over the full alphabet and <= 4 over 14 symbols (thorough: <= 4 full alphabet (two role combinations; the other two over 14 symbols), <= 5 over 12 symbols, <= 6 over two 8-symbol alphabets) with at most 3 sends over {start a send through SendDataMessage W / SendDataMessage no-W / SendDataMessageAsync / ReplyDataMessage / ForwardDataMessage; write error by peer stall + write deadline (W, async, forward) or by peer stall + reset under a blocked write (no-W, reply); peer reply / Reject.req / caller-ctx cancel for the oldest waiting send; 3.01 s pass (T3); peer drop; reconnect (re-dial after backoff or harness connect, select); network refuses dials (active); peer Deselect.req / Select.req; inbound data primary; PType-1 frame; data frame with a non-SECS-II body; Close()} (nothing follows Close; an implicit Close ends every history). At EVERY quiescent point (synctest.Wait after each event): DataMsgInflightCount() >= 0 and == number of reply-expected sends whose primary is on the wire and that still wait; DataMsgSendCount() == data frames the scripted peer has received over all TCP generations == sum of the documented per-outcome deltas; DataMsgRecvCount() == well-formed data frames the peer sent while the reference responder is Selected; DataMsgErrCount / DataMsgDropNotSelectedCount / AsyncSendErrCount == sums of the documented vectors (reply: send+1; peer reject: send+1, no error counter; T3: send+1, err+1, equipment role S9F9 = one more data send (or one not-selected drop when deselected); disconnect / cancel while waiting: send+1 only; refused: drop+1 only; write error: err+1 only, async paths AsyncSendErr+1 only); every call returned the class of its outcome; Reconnecting() >= 0, > 0 from a drop until the next successful dial/listen of the backoff schedule, 0 otherwise (Selected, closed); Reconnects() == successful re-dials (active). state = history prefix, non-trivial = history length >= 1")
+		c.Rule("E2 tree search: real hsmsss connection (passive/active x host/equipment; T3 3 s, backoff 100 ms flat, write timeout 500 ms) brought to Selected, then EVERY history of length <= 3 over the full alphabet and <= 4 over 14 symbols (thorough: <= 4 full alphabet (two role combinations; the other two over 14 symbols), <= 5 over 12 symbols, <= 6 over two 8-symbol alphabets) with at most 3 sends over {start a send through SendDataMessage W / SendDataMessage no-W / SendDataMessageAsync / ReplyDataMessage / ForwardDataMessage; write error by peer stall + write deadline (W, async, forward) or by peer stall + reset under a blocked write (no-W, reply); peer reply / Reject.req / caller-ctx cancel for the oldest waiting send; 3.01 s pass (T3); peer drop; reconnect (re-dial after backoff or harness connect, select); network refuses dials (active); peer Deselect.req / Select.req; inbound data primary; PType-1 frame; data frame with a non-SECS-II body; a third party connecting to the passive port while the link is up (refused; nothing changes); Close()} (nothing follows Close; an implicit Close ends every history). At EVERY quiescent point (synctest.Wait after each event): DataMsgInflightCount() >= 0 and == number of reply-expected sends whose primary is on the wire and that still wait; DataMsgSendCount() == data frames the scripted peer has received over all TCP generations == sum of the documented per-outcome deltas; DataMsgRecvCount() == well-formed data frames the peer sent while the reference responder is Selected; DataMsgErrCount / DataMsgDropNotSelectedCount / AsyncSendErrCount == sums of the documented vectors (reply: send+1; peer reject: send+1, no error counter; T3: send+1, err+1, equipment role S9F9 = one more data send (or one not-selected drop when deselected); disconnect / cancel while waiting: send+1 only; refused: drop+1 only; write error: err+1 only, async paths AsyncSendErr+1 only); every call returned the class of its outcome; Reconnecting() >= 0, > 0 from a drop until the next successful dial/listen of the backoff schedule, 0 otherwise (Selected, closed); Reconnects() == successful re-dials (active). state = history prefix, non-trivial = history length >= 1")
 		c.Assume("testing/synctest virtual time and durable-blocking detection", "sim in-memory network", "reference ledger written from the doc comments of hsms.ConnectionMetrics (DataMsgErrCount is read as: a write error of any synchronous entry point counts — the library's own test pins this for ForwardDataMessage — and an async-path failure counts only in AsyncSendErrCount)", "a data frame with an undecodable body is a received data message (BodyDecodeErrCount doc: counted by DataMsgRecvCount first)", "at most one goroutine wants the write lock while the peer stalls (a goroutine blocked on a sync.Mutex is not durably blocked in a bubble)", "reconnect attempts every 100 ms after a drop (multiplier 1.0); the reference's attempt count is cross-checked against the network's dial/listen log")
 		if c.Replay != nil {
 			var rc replayCase
